@@ -67,9 +67,14 @@ def run_property(pid, ff, ff_rel, repo, tier, seed, replay, t_extract):
     facts = Facts(ff)
     facts.verify_sources(repo)
     facts_rel = Facts(ff_rel) if ff_rel else None
+    import aliases
+    aliases.resolve(facts)
+    if facts_rel is not None: aliases.resolve(facts_rel)
     ctx = Ctx(facts, facts_rel, repo, tier, seed)
     rep = Report(pid)
     try:
+        if facts.role_renames or facts.alias_renames:
+            rep.extra['private_fields_identified_by_role_or_position'] = {'by_type': facts.role_renames, 'by_emitted_position': facts.alias_renames}
         mod.run(ctx, rep)
         if facts_rel is not None:
             # thorough: the typed program (THIR of every body, ADT layouts, constants) is identical with overflow checks and
